@@ -1,5 +1,6 @@
 CONSTANTS
-  MaxFrags = 4
+  Wide = TRUE
+  MaxFrags = 3
 SPECIFICATION Spec
 INVARIANTS WalkFindsFirstPair NonIdentifierNeverResolves EmitCase
 CHECK_DEADLOCK FALSE
